@@ -95,6 +95,13 @@ type LoopSpec struct {
 	// Free: additional assumed (not checked) facts are NOT supported on purpose.
 }
 
+type LetSpec struct {
+	Name string
+	E    Expr
+	Loop int
+	Text string
+}
+
 type CallSpec struct {
 	Callee string
 	Nth    int // -1 = all
@@ -126,6 +133,8 @@ type FuncContract struct {
 	Uses     []string // lemmas to include
 	PanicsIf []*Clause
 	Opaque   bool
+	Lets     []*LetSpec
+	MathInts string // non-empty: machine arithmetic treated as mathematical in this function (assumption, with reason)
 }
 
 type SpecFunc struct {
@@ -409,6 +418,22 @@ func (p *parser) parseTypeText() (string, error) {
 	}
 	if p.peek().k != "id" {
 		return "", p.errf("expected type name, found %q", p.peek().s)
+	}
+	if p.isId("map") && p.toks[p.p+1].k == "op" && p.toks[p.p+1].s == "[" {
+		p.adv()
+		p.adv()
+		kt, err := p.parseTypeText()
+		if err != nil {
+			return "", err
+		}
+		if err := p.expectOp("]"); err != nil {
+			return "", err
+		}
+		vt, err := p.parseTypeText()
+		if err != nil {
+			return "", err
+		}
+		return sb.String() + "map[" + kt + "]" + vt, nil
 	}
 	sb.WriteString(p.adv().s)
 	if p.isOp(".") {
@@ -755,7 +780,7 @@ func (p *parser) textOf(a, b int) string {
 
 var clauseKeywords = map[string]bool{"requires": true, "ensures": true, "modifies": true, "decreases": true, "pure": true,
 	"mode": true, "props": true, "loop": true, "call": true, "trusted": true, "noovf": true, "invariant": true,
-	"allocates": true, "uses": true, "panics_if": true, "terminates": true, "opaque": true}
+	"allocates": true, "uses": true, "panics_if": true, "terminates": true, "opaque": true, "let": true, "mathints": true}
 
 func (p *parser) atItemEnd() bool {
 	t := p.peek()
@@ -944,6 +969,11 @@ func (p *parser) parseFuncContract() (*FuncContract, error) {
 			fc.Opaque = true
 		case "noovf":
 			fc.NoOvf = true
+		case "mathints":
+			if p.peek().k != "str" {
+				return nil, p.errf("mathints needs a reason string")
+			}
+			fc.MathInts = p.adv().s
 		case "allocates":
 			fc.Allocates = true
 		case "terminates":
@@ -958,6 +988,31 @@ func (p *parser) parseFuncContract() (*FuncContract, error) {
 			for p.peek().k == "id" && !clauseKeywords[p.peek().s] && !itemKeywords[p.peek().s] {
 				fc.Uses = append(fc.Uses, p.adv().s)
 			}
+		case "let":
+			// let NAME = expr @after loop K
+			name := p.adv().s
+			if err := p.expectOp("="); err != nil {
+				return nil, err
+			}
+			st := p.p
+			e, err := p.parseExpr(0)
+			if err != nil {
+				return nil, err
+			}
+			txt := p.textOf(st, p.p)
+			if p.peek().k != "at" || p.peek().s != "after" {
+				return nil, p.errf("let needs @after loop K")
+			}
+			p.adv()
+			if !p.isId("loop") {
+				return nil, p.errf("let needs @after loop K")
+			}
+			p.adv()
+			ord, err := strconv.Atoi(p.adv().s)
+			if err != nil {
+				return nil, p.errf("loop ordinal expected")
+			}
+			fc.Lets = append(fc.Lets, &LetSpec{Name: name, E: e, Loop: ord, Text: txt})
 		case "trusted":
 			if p.peek().k != "str" {
 				return nil, p.errf("trusted needs a reason string")
